@@ -142,11 +142,18 @@ def Val.isNil : Val → Bool
 
 def pow2 (w : Nat) : Int := (2 ^ w : Nat)
 
-/-- `uintN(float64)` on amd64: truncation of the integer to `w` bits. -/
-def wrapU (w : Nat) (c : Int) : Int := c % pow2 w
+/-- `CVTTSD2SL` / `CVTTSD2SQ`: a float that does not fit the signed `bits`-bit integer converts to the
+"integer indefinite" value `-2^(bits-1)`. -/
+def cvt (bits : Nat) (c : Int) : Int :=
+  if - pow2 (bits - 1) ≤ c ∧ c < pow2 (bits - 1) then c else - pow2 (bits - 1)
 
-/-- `intN(float64)` on amd64. -/
-def wrapS (w : Nat) (c : Int) : Int := (c + pow2 (w - 1)) % pow2 w - pow2 (w - 1)
+/-- `uintN(float64)` as compiled for amd64: `uint32` goes through the 64-bit conversion, the narrower
+kinds through the 32-bit one; then the low `w` bits.  (Only out-of-range numbers, which the encoder
+never emits, see the difference from plain truncation.) -/
+def wrapU (w : Nat) (c : Int) : Int := cvt (if w = 32 then 64 else 32) c % pow2 w
+
+/-- `intN(float64)` on amd64: 32-bit conversion, then the low `w` bits as a signed number. -/
+def wrapS (w : Nat) (c : Int) : Int := (cvt 32 c + pow2 (w - 1)) % pow2 w - pow2 (w - 1)
 
 def inU (w : Nat) (n : Int) : Bool := 0 ≤ n && n < pow2 w
 def inS (w : Nat) (n : Int) : Bool := - pow2 (w - 1) ≤ n && n < pow2 (w - 1)
